@@ -24,9 +24,13 @@ def write_fileset(ctx, prefix, codes, r, layout="variant-major"):
     with open(prefix + ".bed", "wb") as f:
         f.write(raw)
     ids = [f"ind{s}_{r.randint(0, 99)}" for s in range(n)]
+    if r.random() < 0.3:
+        # a pedigree-style fileset: every family numbers its members 1, 2, 3 ... -- the within-family ID repeats across
+        # families (a sample is identified by the (FID, IID) pair); sample_id must hold the IID column as it is
+        ids = [str(1 + s % 3) for s in range(n)]
     with open(prefix + ".fam", "w") as f:
         for s in range(n):
-            f.write(f"fam{s} {ids[s]} 0 0 {r.choice([0, 1, 2])} -9\n")
+            f.write(f"fam{s // 3 if ids[s].isdigit() else s} {ids[s]} 0 0 {r.choice([0, 1, 2])} -9\n")
     pos, alleles = [], []
     p = 100
     # some filesets span several chromosomes (coordinates restart; the last chromosome may end early), some reach
